@@ -1,6 +1,7 @@
 import FsutilModel.Props.C07
 import FsutilModel.Props.C01
 import FsutilModel.SenderConcProof
+import FsutilModel.ReceiverConcProof
 /-! # C04 — Faults: success is never reported for a partial tree (safety part) -/
 namespace Fsm.C04
 
@@ -46,5 +47,35 @@ theorem unrepaired_sender_can_block_forever :
                        cancelled := true, torn := true }
     SC.allDone s = false ∧ (∀ t env, SC.step false 1 s t env = none) ∧ (∃ t env, (SC.step true 1 s t env).isSome = true) :=
   SC.unrepaired_push_can_block_forever
+
+/-! ## liveness after teardown: the receiver (packet reader, feeder `dynamicWalker.fill`, differ goroutine, async writers) -/
+
+/-- Once the stream is torn down the receiver cannot deadlock: in every well-formed state with some goroutine still alive
+some goroutine can take a step — whatever `walkChan` and the differ's channel hold (any capacities ≥ 1, any backlog of
+announced entries, e.g. more than 2 × 128). -/
+theorem receiver_no_deadlock_after_teardown (capW capC : Nat) (hW : 0 < capW) (hC : 0 < capC) (s : RC.St) (hwf : RC.WF s)
+    (ht : s.torn = true) (hnd : RC.allDone s = false) : ∃ t env, (RC.step true capW capC s t env).isSome = true :=
+  RC.teardown_progress capW capC hW hC s hwf ht hnd
+
+/-- … every step of every goroutine strictly decreases the variant `mu` (bounded time, no goroutine left behind) … -/
+theorem receiver_terminates (fixed : Bool) (capW capC : Nat) (s s' : RC.St) (t : RC.Tid) (env : RC.Env)
+    (hs : RC.step fixed capW capC s t env = some s') : RC.mu s' < RC.mu s :=
+  RC.step_decreases fixed capW capC s s' t env hs
+
+/-- … and the invariant holds initially and is preserved by every step. -/
+theorem receiver_wf_invariant (capW capC : Nat) (s s' : RC.St) (t : RC.Tid) (env : RC.Env) (hwf : RC.WF s)
+    (hs : RC.step true capW capC s t env = some s') : RC.WF s' :=
+  RC.wf_step capW capC s s' t env hwf hs
+
+theorem receiver_wf_init (n : Nat) : RC.WF (RC.init n) := RC.wf_init n
+
+/-- Kernel-checked: a feeder that leaves on cancellation WITHOUT closing `closeCh` while it is handing an entry to the differ
+(the shape of seeded change C04-c) reaches, by an explicit schedule from the initial state, a state in which the packet
+reader is blocked for ever after teardown; the repaired feeder does not. -/
+theorem feeder_without_close_blocks_forever :
+    (match RC.runTrace false 1 1 (RC.init 4) RC.badSchedule with
+     | some s => !RC.allDone { s with torn := true } && RC.stuck false 1 1 { s with torn := true }
+     | none => false) = true :=
+  RC.unrepaired_feeder_can_block_forever
 
 end Fsm.C04
